@@ -171,7 +171,8 @@ class G:
             if k == 0:
                 return "0"
             if k == 1:
-                return '"%s"' % d(st.sampled_from(["", "abc", "hello", "x\\ty"]))
+                # (escapes followed by multi-byte characters: each character is encoded on its own, whatever preceded it)
+                return '"%s"' % d(st.sampled_from(["", "abc", "hello", "x\\ty", "\\033[1m\u00e9\\033[0m", "ab\\0\u2717", "\\1\u00e9", "\u00e9\\x41\" \"\u00e9", "\\377\U0001f600z"]))
             if k == 2:
                 return '"%s" + %d' % (d(st.sampled_from(["abcdef", "012345678"])), d(st.integers(0, 5)))
             if k == 3:
@@ -233,7 +234,7 @@ class G:
             n = t.n
             # up to exactly n characters: the terminating null is dropped when there is no room for it (6.7.9p14)
             ln = d(st.integers(0, n)) if n else d(st.integers(0, 5))
-            s = "".join(d(st.sampled_from(["a", "b", "é", "€", "\\0", "z"])) for _ in range(ln))
+            s = "".join(d(st.sampled_from(["a", "b", "é", "€", "\\0", "z"] + (["\\x1", "\\7", "\U0001f600"] if not n else []))) for _ in range(ln))
             self.labels.add("wide-string-init")
             return '%s"%s"' % (pre, s)
         n = t.n or d(st.integers(1, 6))
